@@ -19,6 +19,7 @@ func C03(ctx *core.Ctx) {
 	if !r.OK() {
 		return
 	}
+	fullReads(ctx, r, "C03.R19")
 	ctx.Rule("C03.R3", "exception wiring in the Go generator: the per-exception code is emitted on every non-oneway path of the client-method and processor generators", 2)
 	ctx.Rule("C03.R4", "message sequence mirror between client writer/reader and processor reader", 7)
 	ctx.Rule("C03.R5", "dispatch key: processMap is indexed with the name returned by ReadMessageBegin of the same message", 1)
